@@ -57,8 +57,8 @@ Settle(s3, cp, d) ==
 
 PathEnd(s0, e, o, d) ==
     LET retry == RetryEnabled(s0, MaxRetries) /\ e.k = s0.step      \* SolveStep for the same period again
-        s1 == IF retry THEN RetryOp(s0, e.cap, e.tol_ge1)
-              ELSE BeginStepOp([s0 EXCEPT !.big = e.tol_ge1, !.cap = e.cap])
+        s1 == IF retry THEN RetryOp([s0 EXCEPT !.zero = e.tol_zero], e.cap, e.tol_ge1)
+              ELSE BeginStepOp([s0 EXCEPT !.big = e.tol_ge1, !.zero = e.tol_zero, !.cap = e.cap])
         \* logged sweeps = sweeps started (an uncaught exception ends the last one);
         \* sweeps = -1: not observed (solves harvested from the test suite) - the witness n = 1 is used,
         \* the end state of a path depends only on the last sweep's outcome;
@@ -109,6 +109,9 @@ JudgeC11(e) ==
     \* an equation is undefined (ZeroDivisionError / ValueError) at the values reported as solved:
     \* the arithmetic error persisted, yet no error was raised
     ELSE IF e.exit = "converged" /\ e.undef THEN P("C11_PersistentErrorRaises")
+    \* the error measure of the last sweep (recomputed from the public step trace) does not meet the
+    \* tolerance that was REQUESTED (solver parameter, else block line, else the default): no error was raised
+    ELSE IF e.exit = "converged" /\ ~e.met_tol THEN P("C11_ToleranceHonoured")
     ELSE IF e.exit \in Failures /\ e.exit = "OtherError" THEN P("C11_FailureRaises")
     ELSE IF e.exit \in Failures /\ e.len_min # e.len_max THEN P("C11_EqualLengthsAfterFailure")
     ELSE Ok
@@ -135,7 +138,7 @@ JudgeFinish(s0, e) ==
     IN Worse(p, c)
 
 Reset(s0) == /\ step = s0.step /\ sweep = s0.sweep /\ errc = s0.errc /\ evalErr = s0.evalErr
-             /\ iter = s0.iter /\ status = s0.status /\ len = s0.len /\ big = s0.big /\ cap = s0.cap /\ retries = s0.retries /\ hist = << >>
+             /\ iter = s0.iter /\ status = s0.status /\ len = s0.len /\ big = s0.big /\ zero = s0.zero /\ met = s0.met /\ cap = s0.cap /\ retries = s0.retries /\ hist = << >>
 TraceInit == l = 1 /\ verdict = Ok /\ Reset(InitState(0, FALSE, 0))
 
 TraceNext ==
